@@ -128,6 +128,39 @@ class MaximumPositionalArgs(IntegerOption):
     name = "maximum_positional_args"
 
 
+# Largest integer result (in bits) that we are willing to compute when
+# evaluating a call on literal arguments.
+_MAX_INT_RESULT_BITS = 1_000_000
+
+
+def is_expensive_int_operation(func: object, args: Sequence[object]) -> bool:
+    """Whether calling func(*args) would compute an enormous integer.
+
+    2 ** (10 ** 30) on literals would otherwise be evaluated while checking
+    and never finish.
+
+    """
+    name = getattr(func, "__name__", None)
+    bound_self = getattr(func, "__self__", None)
+    if isinstance(bound_self, int):
+        # bound method such as (2).__pow__
+        args = [bound_self, *args]
+    if len(args) != 2:
+        return False
+    left, right = args
+    if not isinstance(left, int) or not isinstance(right, int):
+        return False
+    if name in ("__rpow__", "__rlshift__"):
+        left, right = right, left
+    if name in ("__pow__", "__rpow__", "pow"):
+        return abs(left) > 1 and abs(left).bit_length() * right > (
+            _MAX_INT_RESULT_BITS
+        )
+    if name in ("__lshift__", "__rlshift__"):
+        return left != 0 and right > _MAX_INT_RESULT_BITS
+    return False
+
+
 class InvalidSignature(Exception):
     """Raised when an invalid signature is encountered."""
 
@@ -1444,6 +1477,8 @@ class Signature:
             else:
                 return None
 
+        if is_expensive_int_operation(self.callable, args):
+            return None
         try:
             value = self.callable(*args, **kwargs)
         except Exception as e:
